@@ -71,7 +71,7 @@ VOTE_FUNCS = {
     "from_to", "range", "beyond", "outside", "in", "empty", "exists", "all", "missing", "starts_with", "first", "every",
     "tally", "last", "failed", "valid",
 }
-SIDE_FUNCS = {"push", "push_distinct", "counter", "sum", "subtotal", "stop", "skip", "advance", "fail", "fail_and_stop", "tally", "first", "every", "pop"}
+SIDE_FUNCS = {"put", "push", "push_distinct", "counter", "sum", "subtotal", "stop", "skip", "advance", "fail", "fail_and_stop", "tally", "first", "every", "pop"}
 
 
 class Model:
@@ -257,6 +257,30 @@ class Model:
             if is_none(v):
                 raise Unspec("length of none/empty")
             return len(str(v).strip())
+        if f in ("header_name", "header_index"):
+            x = self.val(a[0])
+            if isinstance(x, int) or str(x).strip().isdigit():
+                i = int(x)
+                if i < 0:
+                    raise Unspec("negative header index")
+                actual = self.headers[i] if i < len(self.headers) else None
+            else:
+                actual = self.headers.index(x) if x in self.headers else None
+            if len(a) < 2:
+                return actual
+            if actual is None:
+                return False
+            return actual == self.val(a[1])
+        if f == "get":
+            v = self.getvar(self.val(a[0]))
+            if v is None or len(a) < 2:
+                return v
+            t = self.val(a[1])
+            if isinstance(t, int) and not isinstance(t, bool) and isinstance(v, list):
+                return v[t] if -1 < t < len(v) else None
+            if isinstance(v, dict):
+                return v.get(t)
+            return None
         if f == "count_headers":
             return len(self.headers)
         if f == "count_headers_in_line":
@@ -488,12 +512,33 @@ class Model:
                 return lo <= m <= hi
             return m < lo or m > hi
         if f == "in":
+            # "compares its first argument to all the other arguments ... string Terms are pipe delimited lists of values"
             v = self.val(a[0])
-            opts = [o.strip() for o in a[1][1].split("|")]
+            opts = []
+            for o in a[1:]:
+                if o[0] == "str":
+                    opts += [x.strip() for x in o[1].split("|")]
+                elif o[0] in ("int", "flt"):
+                    raise Unspec("in() with a numeric term option")
+                else:
+                    ov = self.val(o)
+                    if isinstance(ov, (list, tuple, dict)):
+                        raise Unspec("in() with a container option")
+                    if ov is None:
+                        continue  # an absent option equals nothing that is present (v is present below)
+                    if isinstance(ov, str) and ov.strip() == "":
+                        raise Unspec("in() with an empty option value")
+                    if not isinstance(ov, str):
+                        raise Unspec("in() with non-string option value")
+                    opts.append(ov)
             if v is None:
+                if len(a) > 2 or a[1][0] != "str":
+                    raise Unspec("in() of an absent value against non-literal options")
                 return False
             if not isinstance(v, str):
                 raise Unspec("in() with non-string value")
+            if v.strip() == "" and (len(a) > 2 or a[1][0] != "str"):
+                raise Unspec("in() of an empty value against non-literal options")
             return v in opts
         if f in ("empty", "exists"):
             v = self.val(a[0])
@@ -552,6 +597,15 @@ class Model:
         if f == "exact":
             return self.fnval(n)
         if f == "end":
+            return self.fnval(n) is not None
+        if f in ("header_name", "header_index"):
+            v = self.fnval(n)
+            if v is None:
+                return False
+            if isinstance(v, bool):
+                return v
+            return True
+        if f == "get":
             return self.fnval(n) is not None
         if f == "last":
             self.check_a1()
@@ -632,6 +686,13 @@ class Model:
             if self.frozen:
                 return True
             st.append(v)
+            return True
+        if f == "put":
+            name = self.val(a[0])
+            if len(a) == 3:
+                self.setvar(name, self.val(a[2]), self.val(a[1]))
+            else:
+                self.setvar(name, self.val(a[1]))
             return True
         if f in ("counter", "sum", "subtotal", "pop"):
             self.fnval(n)
